@@ -76,6 +76,80 @@ pub const DEF_POOL: &[&str] = &[
     "PRAGMA EXTERN \"OCTET\"",
     "PRAGMA EXTERN \"REAL (x : REAL)\"",
     "PRAGMA EXTERN 5 \"INTEGER\"",
+    "PRAGMA EXTERN",
+    "PRAGMA EXTERN foo",
+    // ---- shapes shared with harness/src/progwire.rs EXTRA_POOL (copied, so that this pool is stable) ----
+    // PRAGMA EXTERN in every shape: 0-3 arguments, first argument identifier / integer / none, with and
+    // without data string, one name across arities, different names with equal tails (the key is the
+    // FIRST argument when it is an identifier, else none)
+    "PRAGMA EXTERN foo legacy \"(c : REAL)\"",
+    "PRAGMA EXTERN foo 1 \"INTEGER (x : INTEGER)\"",
+    "PRAGMA EXTERN bar legacy \"(c : REAL)\"",
+    "PRAGMA EXTERN foo legacy",
+    "PRAGMA EXTERN foo a b \"(d : BIT)\"",
+    "PRAGMA EXTERN foo a b",
+    "PRAGMA EXTERN baz 1 2",
+    "PRAGMA EXTERN baz legacy \"(c : REAL)\"",
+    "PRAGMA EXTERN 1",
+    "PRAGMA EXTERN 1 \"INTEGER\"",
+    "PRAGMA EXTERN 1 foo \"(c : REAL)\"",
+    "PRAGMA EXTERN 1 2 3",
+    "PRAGMA EXTERN 2 foo bar \"x\"",
+    // one key, values of different shape, in every other keyed container
+    "DEFGATE FOO(%t):\n\tcos(%t), 0\n\t0, sin(%t)",
+    "DEFGATE FOO AS PERMUTATION:\n\t1, 0",
+    "DEFGATE FOO a AS SEQUENCE:\n\tX a",
+    "DEFGATE FOO(%t) p q AS PAULI-SUM:\n\tZZ(-%t/4) p q\n\tY(%t/4) p",
+    "DEFGATE FOO:\n\t1, 0, 0, 0\n\t0, 1, 0, 0\n\t0, 0, 0, 1\n\t0, 0, 1, 0",
+    "DEFWAVEFORM wf(%a, %b):\n\t%a, %b",
+    "DEFWAVEFORM wf:\n\t1",
+    "DECLARE ro REAL[1]",
+    "DECLARE ro INTEGER",
+    "DECLARE ro BIT[8] SHARING oct OFFSET 1 BIT",
+    "DECLARE ro BIT[8] SHARING oct OFFSET 1 BIT 2 REAL",
+    "DEFFRAME 0 \"rf\":\n\tDIRECTION: \"tx\"\n\tINITIAL-FREQUENCY: 1\n\tHARDWARE-OBJECT: \"h\"\n\tSAMPLE-RATE: 2",
+    "DEFFRAME 0 \"rf\":\n\tCENTER-FREQUENCY: 3",
+    "DEFCIRCUIT BELL:\n\tX 0",
+    "DEFCIRCUIT BELL(%a) q:\n\tRX(%a) q",
+    "DEFCIRCUIT BELL(%a, %b) a b c:\n\tRX(%a) a\n\tRZ(%b) b\n\tCCNOT a b c",
+    // calibrations that a sloppy signature comparison could confuse: identical up to modifiers …
+    "DEFCAL X 0 1:\n\tX 22",
+    "DEFCAL DAGGER X 0 1:\n\tX 23",
+    "DEFCAL CONTROLLED X 0 1:\n\tX 24",
+    "DEFCAL DAGGER DAGGER X 0 1:\n\tX 25",
+    "DEFCAL DAGGER CONTROLLED X 0 1:\n\tX 26",
+    "DEFCAL CONTROLLED DAGGER X 0 1:\n\tX 27",
+    "DEFCAL FORKED X 0 1:\n\tX 28",
+    "DEFCAL DAGGER X 0:\n\tY 14",
+    "DEFCAL CONTROLLED X 0:\n\tY 15",
+    "DEFCAL RX(pi) 0:\n\tX 30",
+    "DEFCAL DAGGER RX(pi) 0:\n\tX 31",
+    // … up to parameters (equal only after simplification / evaluation, not syntactically) …
+    "DEFCAL RX(1.5707963267948966) 0:\n\tX 32",
+    "DEFCAL RX(2*pi/4) 0:\n\tX 33",
+    "DEFCAL RX(0.5*pi) 0:\n\tX 34",
+    "DEFCAL RX(%u) 0:\n\tX 35",
+    "DEFCAL RX(pi, pi) 0:\n\tX 36",
+    "DEFCAL RX 0:\n\tX 37",
+    // … up to qubits fixed / variable / order / count …
+    "DEFCAL X r:\n\tX r",
+    "DEFCAL X 0 q:\n\tX 38",
+    "DEFCAL X q 0:\n\tX 39",
+    "DEFCAL X q r:\n\tX 40",
+    "DEFCAL X 1 0:\n\tX 41",
+    "DEFCAL RX(pi) q:\n\tX 42",
+    // … measure calibrations: named / unnamed, with / without target, target names, fixed / variable
+    "DEFCAL MEASURE 0:\n\tX 43",
+    "DEFCAL MEASURE 0 dest:\n\tX 44",
+    "DEFCAL MEASURE q:\n\tX 45",
+    "DEFCAL MEASURE r addr:\n\tX 46",
+    "DEFCAL MEASURE!mid 0 addr:\n\tX 47",
+    "DEFCAL MEASURE!mid 0:\n\tX 48",
+    "DEFCAL MEASURE!end 0 addr:\n\tX 49",
+    // … frames: qubit order and count
+    "DEFFRAME 1 0 \"cz\":\n\tDIRECTION: \"tx\"",
+    "DEFFRAME 0 \"cz\":\n\tDIRECTION: \"tx\"",
+    "DEFFRAME 0 1 \"rf\":\n\tDIRECTION: \"tx\"",
 ];
 
 /// Body instructions without control flow: gates, pragmas, pulses, classical instructions.
